@@ -10,6 +10,7 @@ Ok(e) == /\ e.k = "clipline"
          \* trivially; for generated inputs a failing Pre is a generator fault and stops the run
          /\ IF e.re = 1 THEN Pre(e) ELSE Assert(Pre(e), <<"generator fault: crossing off the lattice", e>>)
          /\ e.mod = 0                                                 \* input not modified
+         /\ e.pstable = 1                                             \* the previous call's result was left alone
          /\ AllInBox(e.box, e.out)
          /\ \A i \in 1..Len(e.out) : Len(e.out[i]) >= 1
          /\ Norm(e.out) = ExpectedAll(e.box, e.paths, 1, e.open = 1)
